@@ -34,8 +34,57 @@ func c16Filler(tier int) []byte {
 	}
 }
 
-func c16Gap(kind int, tier int) {
-	g := &vfGen{tier: tier, budget: 0, plainWS: true, plainKW: true}
+func c16Gap(kind int, tier int) { c16GapB(kind, tier, 0) }
+
+// gaps the default statement shapes do not have: after DISTINCT, inside calls, around casts, fill, ORDER BY,
+// IN lists, ON clauses, time arithmetic (fixed texts; every single blank is a gap)
+var c16Special = []string{
+	"SELECT DISTINCT a FROM m",
+	"SELECT count( DISTINCT a ) FROM m",
+	"SELECT mean( a ) , b AS c INTO t FROM m GROUP BY time( 1s , 2s ) , h fill( 0 ) ORDER BY time DESC LIMIT 1 OFFSET 2 SLIMIT 3 SOFFSET 4 tz( 'UTC' )",
+	"SELECT a FROM m WHERE time > now() - 1h AND ( b = 'x' OR c =~ /r/ )",
+	"SELECT a FROM ( SELECT b FROM m ) , n",
+	"SHOW TAG VALUES ON d FROM m WITH KEY IN ( a , b ) WHERE c = 1 LIMIT 1",
+	"SHOW FIELD KEY EXACT CARDINALITY ON d FROM m",
+	"GRANT ALL PRIVILEGES ON d TO u",
+	"REVOKE READ ON d FROM u",
+	"CREATE CONTINUOUS QUERY q ON d RESAMPLE EVERY 1s FOR 2s BEGIN SELECT mean( a ) INTO t FROM m GROUP BY time( 1s ) END",
+	"CREATE SUBSCRIPTION s ON d.r DESTINATIONS ANY 'a' , 'b'",
+	"ALTER RETENTION POLICY r ON d DURATION 1h REPLICATION 1 SHARD DURATION 1h DEFAULT",
+	"EXPLAIN ANALYZE SELECT a FROM m",
+	"KILL QUERY 1 ON h",
+	"DROP SHARD 1",
+	"SET PASSWORD FOR u = 'p'",
+}
+
+func vfH_C16_specialgaps(tier int) {
+	canonical := c16Special[vfChoice(len(c16Special))]
+	var gaps []int
+	for i := 0; i < len(canonical); i++ {
+		if canonical[i] == ' ' {
+			gaps = append(gaps, i)
+		}
+	}
+	off := gaps[vfChoice(len(gaps))]
+	fill := c16Filler(tier)
+	variant := canonical[:off] + string(fill) + canonical[off+1:]
+	vfNote(variant)
+	q1, err1 := ParseQuery(canonical)
+	vfAssert(err1 == nil, "C16/specialgaps/canonical-text-is-accepted")
+	if err1 != nil {
+		return
+	}
+	q2, err2 := ParseQuery(variant)
+	vfAssert(err2 == nil, "C16/specialgaps/whitespace-or-comment-variant-is-accepted")
+	if err2 != nil {
+		return
+	}
+	vfAssert(vfDeepEqual(q1, q2), "C16/specialgaps/whitespace-or-comment-variant-has-the-same-ast")
+	vfReach("C16_specialgaps/ok")
+}
+
+func c16GapB(kind int, tier int, budget int) {
+	g := &vfGen{tier: tier, budget: budget, plainWS: true, plainKW: true}
 	name := vfStmtGens[kind].name
 	vfStmtGens[kind].gen(g)
 	canonical := g.text()
@@ -122,6 +171,42 @@ func vfH_C16_separators(tier int) {
 		}
 	}
 	vfReach("C16_separators/ok")
+}
+// every statement family, in every clause variant, followed by another statement: the first
+// statement ends where it ends alone and the separator is honoured
+func vfH_C16_sequence(tier int) {
+	kind := vfChoice(len(vfStmtGens))
+	g := &vfGen{tier: tier, budget: 1 + tier, plainWS: true, plainKW: true}
+	vfStmtGens[kind].gen(g)
+	first := g.text()
+	var second, sep string
+	if tier == 0 {
+		k := vfChoice(2)
+		second, sep = []string{"SHOW DATABASES", "SELECT a FROM m"}[k], []string{";", " ;\n"}[k]
+	} else {
+		second = []string{"SHOW DATABASES", "SELECT a FROM m"}[vfChoice(2)]
+		sep = []string{";", " ; ", ";\n"}[vfChoice(3)]
+	}
+	text := first + sep + second
+	vfNote(text)
+	alone, err := ParseStatement(first)
+	if err != nil {
+		vfReach("C16_sequence/first-rejected")
+		return
+	}
+	q, err := ParseQuery(text)
+	vfAssert(err == nil, "C16/sequence/"+vfStmtGens[kind].name+"-followed-by-a-statement-is-accepted")
+	if err != nil {
+		return
+	}
+	vfAssert(len(q.Statements) == 2, "C16/sequence/exactly-two-statements")
+	if len(q.Statements) != 2 {
+		return
+	}
+	vfAssert(vfDeepEqual(q.Statements[0], alone), "C16/sequence/first-identical-to-parsing-it-alone")
+	other, _ := ParseStatement(second)
+	vfAssert(vfDeepEqual(q.Statements[1], other), "C16/sequence/second-identical-to-parsing-it-alone")
+	vfReach("C16_sequence/ok")
 }
 func vfH_C16_select(tier int) { c16Gap(0, tier) }
 func vfH_C16_explain(tier int) { c16Gap(1, tier) }
